@@ -3,7 +3,7 @@ import random
 
 from bcverif import encode as E
 from bcverif.props.c05 import layouts
-from bcverif.runner import pmap, setup_repo_import
+from bcverif.runner import pmap, setup_repo_import, suite_events
 
 
 def tx_bases(blocks, st):
@@ -110,6 +110,7 @@ def run(chk):
     nsh = 64
     parts = pmap(_tx_events, [(items[i::nsh], G + 1, chk.seed * 733 + i) for i in range(nsh)])
     evs = [e for p in parts for e in p]
+    evs += suite_events(chk, "C06Trace")  # leg S: the repository's own tests, traced passively
     chk.validate("C06Trace", evs, shard=600, label="tx")
     chk.exhaustive = not quick
     chk.nontrivial = len(items)
